@@ -200,14 +200,14 @@ static void sched_rng(Json& js, vh::Rng& rng) {
         out.push_back(c[0]);
         out.push_back(c[1]);
     };
-    // an unseeded thread draws the default sequence (seed 0) whatever other threads seed meanwhile
+    // an unseeded thread draws the same default sequence whatever other threads seed meanwhile
     {
         std::vector<double> d0, d1;
         auto unseeded = [](std::vector<double>& out) {
             const arr_real a = randn(3);
             out.assign(a.begin(), a.end());
         };
-        std::thread r([&] { dsplib::rng(0); unseeded(d0); });
+        std::thread r([&] { unseeded(d0); });   // reference: an unseeded thread before the others seed
         r.join();
         Sched s;
         s.mask = 2;
